@@ -380,7 +380,7 @@ PROPS = {
             "StaticResourceController::process / postcondition / in the C02 domain without a Range header: 200 and exactly one part = all bytes of the selected file, size label, media type of that file",
             "Range::get_content_range_list / postcondition / which file is read: served directory ++ path of the target",
             "Range::parse_content_range / postcondition / every part is the requested slice of the file; the implicit request bytes=0- always yields one part starting at 0 that reaches the end",
-            "MimeType::detect_mime_type / postcondition / res@ == mime_of(name): the 76-row registry table; lemma_mime_registry_1..9: the value of every suffix / type constant",
+            "MimeType::detect_mime_type / postcondition / mime_listed(name) ==> res@ == mime_of(name): the 76-row registry table (names no row speaks about are unconstrained, so appending a new row is not a violation); lemma_mime_registry_1..9: the value of every suffix / type constant",
             "App::execute / postcondition / a GET / HEAD that no built-in endpoint claims goes to the static lookup (200 + whole file) or to the not-found page (404; 500 only if a custom 404.html exists and cannot be read)",
         ],
         "assumptions": [
